@@ -14,7 +14,9 @@ def executed_steps(out):
 
 def dist_contents(p, q):
     """package name -> content digest of its dist workspace (as bob reports the path)"""
-    rc, out = p.bob('query-path', '-f', '{name}|{dist}', '//*')
+    # release mode (bob build: work/...) or develop mode (bob dev: dev/...): as stated by the caller, else by what the project holds
+    release = (q == 'release') or (q is None and os.path.isdir(os.path.join(p.dir, 'work')) and not os.path.isdir(os.path.join(p.dir, 'dev')))
+    rc, out = p.bob('query-path', '-f', '{name}|{dist}', *(['--release'] if release else ['--develop']), '//*')
     res = {}
     for l in out.split('\n'):
         parts = l.strip().split('|')
